@@ -224,4 +224,270 @@ theorem body_promote_core (b : Board) (mv : Move) (hb : Core b)
     by_cases h1 : mv.dst = t <;> by_cases h2 : mv.src = t <;> by_cases h3 : b.get mv.dst = x <;>
       by_cases h4 : mv.cell = x <;> by_cases h5 : P = x <;> simp_all [Cell.empty] <;> grind
 
+theorem body_null_core (b : Board) (mv : Move) (hb : Core b) (hk : mv.kind = .null) :
+    Core (makeBody b.r.side b mv (b.get mv.dst)) := by
+  unfold makeBody; simp only [hk]; exact hb
+
+theorem body_double_core (b : Board) (mv : Move) (hb : Core b) (hk : mv.kind = .double)
+    (ok : MakeOk b mv) (hep : b.r.ep = none) : Core (makeBody b.r.side b mv (b.get mv.dst)) := by
+  obtain ⟨hh, hc, hp⟩ := hb
+  simp only [MakeOk, hk] at ok
+  obtain ⟨hsrc, hdst, hne⟩ := ok
+  unfold makeBody
+  simp only [hk]
+  unfold makePawnDouble
+  simp only [Bool.false_eq_true, if_false, Bool.not_false, if_true]
+  refine ⟨?_, ?_, ?_⟩
+  · proj_simp
+    rw [headerHash_change b.r.side b.r.ep (some mv.dst) b.r.castling b.r.castling, cellsHash_put, cellsHash_put, hh]
+    simp only [cellKey_eq, Tab.get_put, hne, if_false, epKey]
+    have e1 : b.r.cells.get mv.src = Cell.mk b.r.side .pawn := hsrc
+    have e2 : b.r.cells.get mv.dst = Cell.empty := hdst
+    have e3 : ∀ s, zPieces Cell.empty s = 0#64 := zPieces_empty
+    rw [e1, e2, e3, e3, hep]
+    grind
+  · intro c t
+    proj_simp
+    have hd := hc b.r.side mv.dst
+    cases hs : b.r.side <;> cases c <;> simp only [hs] at hsrc hd ⊢ <;>
+      by_cases h1 : mv.dst = t <;> by_cases h2 : mv.src = t <;> simp_all [Color.inv]
+  · intro x t
+    proj_simp
+    have hz : Cell.mk b.r.side .pawn ≠ 0 := mk_ne_zero _ _
+    by_cases h1 : mv.dst = t <;> by_cases h2 : mv.src = t <;>
+      by_cases h4 : Cell.mk b.r.side .pawn = x <;> simp_all [Cell.empty] <;> grind
+
+theorem body_ep_core (b : Board) (mv : Move) (hb : Core b) (hk : mv.kind = .ep)
+    (ok : MakeOk b mv) : Core (makeBody b.r.side b mv (b.get mv.dst)) := by
+  obtain ⟨hh, hc, hp⟩ := hb
+  simp only [MakeOk, hk] at ok
+  obtain ⟨hsrc, hdst, htk, hne, hts, htd⟩ := ok
+  unfold makeBody
+  simp only [hk]
+  unfold makeEnpassant
+  simp only [Bool.false_eq_true, if_false]
+  generalize addU mv.dst (-(forwardDelta b.r.side)) = tk at *
+  refine ⟨?_, ?_, ?_⟩
+  · proj_simp
+    rw [cellsHash_put, cellsHash_put, cellsHash_put, hh]
+    have hts' : ¬ mv.src = tk := fun e => hts e.symm
+    have htd' : ¬ mv.dst = tk := fun e => htd e.symm
+    simp only [cellKey_eq, Tab.get_put, hne, hts', htd', if_false]
+    have e1 : b.r.cells.get mv.src = Cell.mk b.r.side .pawn := hsrc
+    have e2 : b.r.cells.get mv.dst = Cell.empty := hdst
+    have e4 : b.r.cells.get tk = Cell.mk b.r.side.inv .pawn := htk
+    have e3 : ∀ s, zPieces Cell.empty s = 0#64 := zPieces_empty
+    rw [e1, e2, e4, e3, e3, e3]
+    grind
+  · intro c t
+    proj_simp
+    cases hs : b.r.side <;> cases c <;> simp only [hs] at hsrc htk ⊢ <;>
+      by_cases h1 : mv.dst = t <;> by_cases h2 : mv.src = t <;> by_cases h3 : tk = t <;> simp_all [Color.inv]
+  · intro x t
+    proj_simp
+    have hz : Cell.mk b.r.side .pawn ≠ 0 := mk_ne_zero _ _
+    have hz' : Cell.mk b.r.side.inv .pawn ≠ 0 := mk_ne_zero _ _
+    have hne' : Cell.mk b.r.side .pawn ≠ Cell.mk b.r.side.inv .pawn := by
+      intro e; exact Color.inv_ne _ (mk_inj e).1.symm
+    by_cases h1 : mv.dst = t <;> by_cases h2 : mv.src = t <;> by_cases h3 : tk = t <;>
+      by_cases h4 : Cell.mk b.r.side .pawn = x <;> by_cases h5 : Cell.mk b.r.side.inv .pawn = x <;>
+      simp_all [Cell.empty] <;> grind
+
+theorem ks_masks (c : Color) (t : Sq) :
+    (BB.ofNat (Gen.ksColorMask <<< genericOffset c)).has t
+        = (decide (Sq.mk fileE (castlingRank c) = t) || decide (Sq.mk fileF (castlingRank c) = t)
+           || decide (Sq.mk fileG (castlingRank c) = t) || decide (Sq.mk fileH (castlingRank c) = t))
+    ∧ (BB.ofNat (Gen.ksRookMask <<< genericOffset c)).has t
+        = (decide (Sq.mk fileF (castlingRank c) = t) || decide (Sq.mk fileH (castlingRank c) = t))
+    ∧ (BB.ofNat (Gen.ksKingMask <<< genericOffset c)).has t
+        = (decide (Sq.mk fileE (castlingRank c) = t) || decide (Sq.mk fileG (castlingRank c) = t)) := by
+  cases c <;> revert t <;> decide +kernel
+
+theorem qs_masks (c : Color) (t : Sq) :
+    (BB.ofNat (Gen.qsColorMask <<< genericOffset c)).has t
+        = (decide (Sq.mk fileA (castlingRank c) = t) || decide (Sq.mk fileC (castlingRank c) = t)
+           || decide (Sq.mk fileD (castlingRank c) = t) || decide (Sq.mk fileE (castlingRank c) = t))
+    ∧ (BB.ofNat (Gen.qsRookMask <<< genericOffset c)).has t
+        = (decide (Sq.mk fileA (castlingRank c) = t) || decide (Sq.mk fileD (castlingRank c) = t))
+    ∧ (BB.ofNat (Gen.qsKingMask <<< genericOffset c)).has t
+        = (decide (Sq.mk fileC (castlingRank c) = t) || decide (Sq.mk fileE (castlingRank c) = t)) := by
+  cases c <;> revert t <;> decide +kernel
+
+theorem castle_delta (c : Color) :
+    zCastlingDelta c .king = zPieces (Cell.mk c .king) (Sq.mk fileE (castlingRank c))
+        ^^^ zPieces (Cell.mk c .king) (Sq.mk fileG (castlingRank c))
+        ^^^ zPieces (Cell.mk c .rook) (Sq.mk fileH (castlingRank c))
+        ^^^ zPieces (Cell.mk c .rook) (Sq.mk fileF (castlingRank c))
+    ∧ zCastlingDelta c .queen = zPieces (Cell.mk c .king) (Sq.mk fileE (castlingRank c))
+        ^^^ zPieces (Cell.mk c .king) (Sq.mk fileC (castlingRank c))
+        ^^^ zPieces (Cell.mk c .rook) (Sq.mk fileA (castlingRank c))
+        ^^^ zPieces (Cell.mk c .rook) (Sq.mk fileD (castlingRank c)) := by
+  cases c <;> decide +kernel
+
+theorem castle_sq_ne (c : Color) :
+    Sq.mk fileE (castlingRank c) ≠ Sq.mk fileF (castlingRank c) ∧ Sq.mk fileE (castlingRank c) ≠ Sq.mk fileG (castlingRank c)
+    ∧ Sq.mk fileE (castlingRank c) ≠ Sq.mk fileH (castlingRank c) ∧ Sq.mk fileF (castlingRank c) ≠ Sq.mk fileG (castlingRank c)
+    ∧ Sq.mk fileF (castlingRank c) ≠ Sq.mk fileH (castlingRank c) ∧ Sq.mk fileG (castlingRank c) ≠ Sq.mk fileH (castlingRank c)
+    ∧ Sq.mk fileA (castlingRank c) ≠ Sq.mk fileC (castlingRank c) ∧ Sq.mk fileA (castlingRank c) ≠ Sq.mk fileD (castlingRank c)
+    ∧ Sq.mk fileA (castlingRank c) ≠ Sq.mk fileE (castlingRank c) ∧ Sq.mk fileC (castlingRank c) ≠ Sq.mk fileD (castlingRank c)
+    ∧ Sq.mk fileC (castlingRank c) ≠ Sq.mk fileE (castlingRank c) ∧ Sq.mk fileD (castlingRank c) ≠ Sq.mk fileE (castlingRank c) := by
+  cases c <;> decide
+
+theorem body_castleK_core (b : Board) (mv : Move) (hb : Core b) (hk : mv.kind = .castleK)
+    (ok : MakeOk b mv) : Core (makeBody b.r.side b mv (b.get mv.dst)) := by
+  obtain ⟨hh, hc, hp⟩ := hb
+  simp only [MakeOk, hk] at ok
+  obtain ⟨hE, hF, hG, hH⟩ := ok
+  unfold makeBody
+  simp only [hk]
+  unfold makeCastlingK
+  simp only [Bool.false_eq_true, if_false, Bool.not_false, if_true]
+  obtain ⟨nEF, nEG, nEH, nFG, nFH, nGH, -⟩ := castle_sq_ne b.r.side
+  generalize hEs : Sq.mk fileE (castlingRank b.r.side) = E at *
+  generalize hFs : Sq.mk fileF (castlingRank b.r.side) = F at *
+  generalize hGs : Sq.mk fileG (castlingRank b.r.side) = G at *
+  generalize hHs : Sq.mk fileH (castlingRank b.r.side) = H at *
+  have hm := fun t => ks_masks b.r.side t
+  rw [hEs, hFs, hGs, hHs] at hm
+  refine ⟨?_, ?_, ?_⟩
+  · proj_simp
+    generalize rWithoutColor b.r.castling b.r.side = K
+    rw [headerHash_change b.r.side b.r.ep b.r.ep b.r.castling K, cellsHash_put, cellsHash_put, cellsHash_put,
+      cellsHash_put, hh, (castle_delta b.r.side).1, hEs, hFs, hGs, hHs]
+    have nFE : ¬ F = E := fun e => nEF e.symm
+    have nGE : ¬ G = E := fun e => nEG e.symm
+    have nHE : ¬ H = E := fun e => nEH e.symm
+    have nGF : ¬ G = F := fun e => nFG e.symm
+    have nHF : ¬ H = F := fun e => nFH e.symm
+    have nHG : ¬ H = G := fun e => nGH e.symm
+    simp only [cellKey_eq, Tab.get_put, nEF, nEG, nEH, nFG, nFH, nGH, nFE, nGE, nHE, nGF, nHF, nHG, if_false]
+    have e1 : b.r.cells.get E = Cell.mk b.r.side .king := hE
+    have e2 : b.r.cells.get F = Cell.empty := hF
+    have e3 : b.r.cells.get G = Cell.empty := hG
+    have e4 : b.r.cells.get H = Cell.mk b.r.side .rook := hH
+    have e0 : ∀ s, zPieces Cell.empty s = 0#64 := zPieces_empty
+    rw [e1, e2, e3, e4]
+    simp only [e0]
+    grind
+  · intro c t
+    proj_simp
+    have hm1 := (hm t).1
+    cases hs : b.r.side <;> cases c <;> simp only [hs] at hE hH ⊢ <;>
+      by_cases h1 : E = t <;> by_cases h2 : F = t <;> by_cases h3 : G = t <;> by_cases h4 : H = t <;>
+      simp_all [Color.inv]
+  · intro x t
+    proj_simp
+    have hm2 := (hm t).2.1
+    have hm3 := (hm t).2.2
+    have hz : Cell.mk b.r.side .king ≠ 0 := mk_ne_zero _ _
+    have hz' : Cell.mk b.r.side .rook ≠ 0 := mk_ne_zero _ _
+    have hne' : Cell.mk b.r.side .rook ≠ Cell.mk b.r.side .king := by
+      intro e; exact absurd (mk_inj e).2 (by decide)
+    by_cases h1 : E = t <;> by_cases h2 : F = t <;> by_cases h3 : G = t <;> by_cases h4 : H = t <;>
+      by_cases h5 : Cell.mk b.r.side .king = x <;> by_cases h6 : Cell.mk b.r.side .rook = x <;>
+      simp_all [Cell.empty] <;> grind
+
+theorem body_castleQ_core (b : Board) (mv : Move) (hb : Core b) (hk : mv.kind = .castleQ)
+    (ok : MakeOk b mv) : Core (makeBody b.r.side b mv (b.get mv.dst)) := by
+  obtain ⟨hh, hc, hp⟩ := hb
+  simp only [MakeOk, hk] at ok
+  obtain ⟨hA, hC, hD, hE⟩ := ok
+  unfold makeBody
+  simp only [hk]
+  unfold makeCastlingQ
+  simp only [Bool.false_eq_true, if_false, Bool.not_false, if_true]
+  obtain ⟨-, -, -, -, -, -, nAC, nAD, nAE, nCD, nCE, nDE⟩ := castle_sq_ne b.r.side
+  generalize hAs : Sq.mk fileA (castlingRank b.r.side) = A at *
+  generalize hCs : Sq.mk fileC (castlingRank b.r.side) = C at *
+  generalize hDs : Sq.mk fileD (castlingRank b.r.side) = D at *
+  generalize hEs : Sq.mk fileE (castlingRank b.r.side) = E at *
+  have hm := fun t => qs_masks b.r.side t
+  rw [hAs, hCs, hDs, hEs] at hm
+  refine ⟨?_, ?_, ?_⟩
+  · proj_simp
+    generalize rWithoutColor b.r.castling b.r.side = K
+    rw [headerHash_change b.r.side b.r.ep b.r.ep b.r.castling K, cellsHash_put, cellsHash_put, cellsHash_put,
+      cellsHash_put, hh, (castle_delta b.r.side).2, hAs, hCs, hDs, hEs]
+    have nCA : ¬ C = A := fun e => nAC e.symm
+    have nDA : ¬ D = A := fun e => nAD e.symm
+    have nEA : ¬ E = A := fun e => nAE e.symm
+    have nDC : ¬ D = C := fun e => nCD e.symm
+    have nEC : ¬ E = C := fun e => nCE e.symm
+    have nED : ¬ E = D := fun e => nDE e.symm
+    simp only [cellKey_eq, Tab.get_put, nAC, nAD, nAE, nCD, nCE, nDE, nCA, nDA, nEA, nDC, nEC, nED, if_false]
+    have e1 : b.r.cells.get A = Cell.mk b.r.side .rook := hA
+    have e2 : b.r.cells.get C = Cell.empty := hC
+    have e3 : b.r.cells.get D = Cell.empty := hD
+    have e4 : b.r.cells.get E = Cell.mk b.r.side .king := hE
+    have e0 : ∀ s, zPieces Cell.empty s = 0#64 := zPieces_empty
+    rw [e1, e2, e3, e4]
+    simp only [e0]
+    grind
+  · intro c t
+    proj_simp
+    have hm1 := (hm t).1
+    cases hs : b.r.side <;> cases c <;> simp only [hs] at hA hE ⊢ <;>
+      by_cases h1 : A = t <;> by_cases h2 : C = t <;> by_cases h3 : D = t <;> by_cases h4 : E = t <;>
+      simp_all [Color.inv]
+  · intro x t
+    proj_simp
+    have hm2 := (hm t).2.1
+    have hm3 := (hm t).2.2
+    have hz : Cell.mk b.r.side .king ≠ 0 := mk_ne_zero _ _
+    have hz' : Cell.mk b.r.side .rook ≠ 0 := mk_ne_zero _ _
+    have hne' : Cell.mk b.r.side .rook ≠ Cell.mk b.r.side .king := by
+      intro e; exact absurd (mk_inj e).2 (by decide)
+    by_cases h1 : A = t <;> by_cases h2 : C = t <;> by_cases h3 : D = t <;> by_cases h4 : E = t <;>
+      by_cases h5 : Cell.mk b.r.side .king = x <;> by_cases h6 : Cell.mk b.r.side .rook = x <;>
+      simp_all [Cell.empty] <;> grind
+
+end Owl.Lemmas
+
+namespace Owl.Lemmas
+open Owl Owl.Impl
+
+/-- the body of `do_make_move` does not touch side to move or the counters -/
+theorem makeBody_side (c : Color) (b : Board) (mv : Move) (d : Cell) :
+    (makeBody c b mv d).r.side = b.r.side ∧ (makeBody c b mv d).r.mc = b.r.mc ∧ (makeBody c b mv d).r.mn = b.r.mn := by
+  unfold makeBody
+  cases mv.kind <;>
+    simp [makeCastlingK, makeCastlingQ, makePawnDouble, makeEnpassant, updateCastling_side, updateCastling_mc,
+      updateCastling_mn]
+  split <;> simp [updateCastling_side, updateCastling_mc, updateCastling_mn]
+
+theorem makeOk_clearEp (b : Board) (mv : Move) (ok : MakeOk b mv) : MakeOk b.clearEp mv := by
+  unfold MakeOk at ok ⊢
+  simp only [clearEp_side, clearEp_get]
+  exact ok
+
+theorem body_core (b : Board) (mv : Move) (hb : Core b) (ok : MakeOk b mv) (hep : b.r.ep = none) :
+    Core (makeBody b.r.side b mv (b.get mv.dst)) := by
+  cases hk : mv.kind
+  · exact body_null_core b mv hb hk
+  · exact body_simple_core b mv hb hk ok
+  · exact body_castleK_core b mv hb hk ok
+  · exact body_castleQ_core b mv hb hk ok
+  · exact body_double_core b mv hb hk ok hep
+  · exact body_ep_core b mv hb hk ok
+  · exact body_promote_core b mv hb (Or.inl hk) ok
+  · exact body_promote_core b mv hb (Or.inr (Or.inl hk)) ok
+  · exact body_promote_core b mv hb (Or.inr (Or.inr (Or.inl hk))) ok
+  · exact body_promote_core b mv hb (Or.inr (Or.inr (Or.inr hk))) ok
+
+/-- C05 backbone: `make_move_unchecked` keeps hash and occupancy sets equal to the from-scratch values -/
+theorem make_consistent (b : Board) (mv : Move) (hb : Consistent b) (ok : MakeOk b mv) :
+    Consistent (makeMove b mv).1 := by
+  have hcore := clearEp_core b ((consistent_core b).mp hb).1
+  have hbody := body_core b.clearEp mv hcore (makeOk_clearEp b mv ok) (clearEp_ep b)
+  rw [clearEp_side, clearEp_get] at hbody
+  unfold makeMove
+  simp only
+  have hs := (makeBody_side b.r.side b.clearEp mv (b.get mv.dst)).1
+  rw [clearEp_side] at hs
+  have := tail_consistent (makeBody b.r.side b.clearEp mv (b.get mv.dst))
+    (if b.get mv.dst ≠ Cell.empty || mv.cell = Cell.mk b.r.side .pawn then 0 else satInc b.r.mc)
+    (if b.r.side = .black then satInc b.r.mn else b.r.mn) hbody
+  rw [hs] at this
+  exact this
+
 end Owl.Lemmas
